@@ -770,6 +770,9 @@ def run(ck: Check):
             np.random.seed(99)
             np.random.rand(3)
             _, l1 = det.compare(X=Y)
+            import copy as _copy
+
+            l1 = _copy.deepcopy(l1)  # update() hands out the callback's own (mutable) log dictionary
             np.random.seed(12345)
             np.random.rand(7)
             _, l2 = det.compare(X=Y)
